@@ -57,6 +57,10 @@ if TYPE_CHECKING:
 log = logging.getLogger(__name__)
 
 
+# CIDs have at most 16 bits: a W / W2 range `c_first c_last w` cannot cover more
+MAX_WIDTH_RANGE = 0x10000
+
+
 def get_widths(seq: Iterable[object]) -> Dict[Union[str, int], float]:
     """Build a mapping of character widths for horizontal writing."""
     widths: Dict[int, float] = {}
@@ -73,12 +77,16 @@ def get_widths(seq: Iterable[object]) -> Dict[Union[str, int], float]:
             r.append(v)
             if len(r) == 3:
                 (char1, char2, w) = r
-                if isinstance(char1, int) and isinstance(char2, int):
+                if (
+                    isinstance(char1, int)
+                    and isinstance(char2, int)
+                    and char2 - char1 < MAX_WIDTH_RANGE
+                ):
                     for i in range(cast(int, char1), cast(int, char2) + 1):
                         widths[i] = w
                 else:
                     log.warning(
-                        f"Skipping invalid font width specification for {char1} to {char2} because either of them is not an int"
+                        f"Skipping invalid font width specification for {char1} to {char2} because either of them is not an int or the range is too large"
                     )
                 r = []
         else:
@@ -103,8 +111,13 @@ def get_widths2(seq: Iterable[object]) -> Dict[int, Tuple[float, Point]]:
             r.append(v)
             if len(r) == 5:
                 (char1, char2, w, vx, vy) = r
-                for i in range(cast(int, char1), cast(int, char2) + 1):
-                    widths[i] = (w, (vx, vy))
+                if (
+                    isinstance(char1, int)
+                    and isinstance(char2, int)
+                    and char2 - char1 < MAX_WIDTH_RANGE
+                ):
+                    for i in range(char1, char2 + 1):
+                        widths[i] = (w, (vx, vy))
                 r = []
     return widths
 
